@@ -176,7 +176,7 @@ def _build_evaluator(
         VectorUnarySum,
         VectorExpressionSum,
     )
-    from optyx.core.matrices import QuadraticForm
+    from optyx.core.matrices import QuadraticForm, MatrixSum, FrobeniusNorm
 
     if isinstance(expr, Constant):
         value = expr.value
@@ -240,6 +240,18 @@ def _build_evaluator(
         Q = expr.matrix
         vec_fn = _build_vector_evaluator(expr.vector, var_indices)
         return lambda x, vf=vec_fn, Q=Q: float(vf(x) @ Q @ vf(x))
+
+    elif isinstance(expr, (MatrixSum, FrobeniusNorm)):
+        # sum(X) / ||X||_F over the matrix elements in row-major order
+        mat = expr.matrix
+        elem_fns = [
+            _build_evaluator(mat[i, j], var_indices)
+            for i in range(mat.rows)
+            for j in range(mat.cols)
+        ]
+        if isinstance(expr, MatrixSum):
+            return lambda x, fns=elem_fns: float(sum(f(x) for f in fns))
+        return lambda x, fns=elem_fns: float(np.sqrt(sum(f(x) ** 2 for f in fns)))
 
     elif isinstance(expr, VectorPowerSum):
         # sum(x ** k) - efficient numpy implementation
